@@ -2,7 +2,7 @@ SPECIFICATION Spec
 CONSTANTS
   AtomChoice = "all"
   MaxLen = 10
-  SepChoice = "all"
+  SepChoice = "basic"
   EmitMin = 10
   WithFinal = FALSE
   AssertRef = TRUE
